@@ -208,6 +208,17 @@ def _subchecks(hist, st, acc, parser):
                             acc.fail("label-named-like-typedef:" + r[0],
                                      {"text": text, "depth": d, "probe": pid, "name": name, "typedef": True,
                                       "history": [list(e) for e in h2], "kind": "probe"}, r[1])
+                # the same label in every sub-statement position (a labeled
+                # statement is a statement like any other)
+                for pid, tmpl, want in _label_substatement_forms(name):
+                    text = S.program(hist, st, tmpl)
+                    r = run_probe(text, d, want, parser)
+                    acc.add("programs")
+                    acc.add("sub_label_substatement_probes")
+                    if r is not None:
+                        acc.fail("label-named-like-typedef:substatement:" + r[0],
+                                 {"text": text, "depth": d, "probe": pid, "name": name, "typedef": True,
+                                  "history": [list(e) for e in hist], "kind": "label-sub"}, r[1])
         # (S3) enumerators: visible after their own enumerator, not inside it
         if td and S.apply(st, ("enum", name)) is not None:
             _enum_self_check(hist, st, name, d, acc, parser)
@@ -222,6 +233,25 @@ def _subchecks(hist, st, acc, parser):
                     acc.fail("declared-name-not-visible-before-declaration-ends" if r[0] == "mismatch" else "own-initializer:" + r[0],
                              {"text": text, "depth": d, "probe": pid, "name": name, "typedef": False,
                               "history": [list(e) for e in hist], "kind": "own-init"}, r[1])
+
+
+def _label_substatement_forms(name):
+    """(id, statement text, expected canon) for the label `name : ;` as the body
+    of if / else / while / do / for, after a case prefix and after a label."""
+    from models.stmt_model import N as _N, INT, EMPTY
+
+    lab = _N("Label", name, EMPTY)
+    l = "%s : ;" % name
+    return (
+        ("label-in-if", "if ( 1 ) " + l, _N("If", INT(1), lab, None)),
+        ("label-in-else", "if ( 1 ) ; else " + l, _N("If", INT(1), EMPTY, lab)),
+        ("label-in-while", "while ( 0 ) " + l, _N("While", INT(0), lab)),
+        ("label-in-do", "do " + l + " while ( 0 ) ;", _N("DoWhile", INT(0), lab)),
+        ("label-in-for", "for ( ; ; ) " + l, _N("For", None, None, None, lab)),
+        ("label-after-case", "switch ( 1 ) { case 1 : " + l + " }",
+         _N("Switch", INT(1), _N("Compound", (_N("Case", INT(1), (lab,)),)))),
+        ("label-after-label", "lab9 : " + l, _N("Label", "lab9", lab)),
+    )
 
 
 def _enum_self_check(hist, st, name, d, acc, parser):
@@ -531,6 +561,7 @@ def run(tier):
     R.set("histories_behind_rejected_prefix", tot.get("histories_behind_rejected_prefix", 0))
     R.set("subcheck_label_named_like_typedef", {"histories": tot.get("sub_label_histories", 0), "probes": tot.get("sub_label_probes", 0)})
     R.set("subcheck_own_initializer_probes", tot.get("sub_owninit_probes", 0))
+    R.set("subcheck_label_substatement_probes", tot.get("sub_label_substatement_probes", 0))
     R.set("failure_counts", {k[5:]: v for k, v in tot.items() if k.startswith("fail:")})
     R.set("bounds", {"names": list(S.NAMES), "max_depth": S.MAX_DEPTH,
                      "sweeps": [{"alphabet": k, "events": [e[0] for e in S.alphabet(k, ie) if e[1] in (None, "A")],
@@ -584,6 +615,9 @@ def replay(rep):
     for p in S.OWN_INIT_PROBES:
         if p[0] == pid:
             want = p[2](name)
+    for p in _label_substatement_forms(name):
+        if p[0] == pid:
+            want = p[2]
     r = run_probe(c["text"], c["depth"], want, CParser())
     print("reference: %s is %s here; expected probe AST %s" % (name, "a typedef name" if td else "an ordinary identifier", _cls(want)))
     print("observed:", "as expected" if r is None else r)
